@@ -3,7 +3,7 @@ types, against the peer's true public key (computed by the model's own DH) and t
 import random
 
 from noiseref import prims
-from noiseref.patterns import CIPHERS, DHS, HASHES, all_variants, make_name, parse_name_simple, receives_static_at
+from noiseref.patterns import CIPHERS, DHS, HASHES, all_variants, make_name, needs_remote_static, parse_name_simple, receives_static_at
 
 from .. import core, sessions
 from ..script import Case
@@ -42,7 +42,20 @@ class CheckC17(core.Check):
         keys = sessions.Keys(parsed, seed)
         c = Case("rs-%s-%d" % (name, seed), desc)
         supply = (rnd.choice(["needed", "needed", "all"]), rnd.choice(["needed", "needed", "all"]))
-        sessions.add_pair(c, parsed, keys, rng=("script:%d" % seed, "script:%d" % (seed + 1)), supply=supply, rec=("-", "-"))
+        # a party may also be given a WRONG remote key that the pattern does not need (a stale pin): it is reported until the
+        # message carrying the peer's real key has been read, then the real key must be reported
+        other = sessions.Keys(parsed, seed + 99)
+        wrongpin = {}
+        for pid, ini in (("A", True), ("B", False)):
+            if not needs_remote_static(parsed.pattern, ini) and receives_static_at(parsed.pattern, ini) is not None and rnd.random() < 0.25:
+                wrongpin[pid] = other.pub_r if ini else other.pub_i
+        for pid, ini, j in (("A", True, 0), ("B", False, 1)):
+            kw = sessions.party_kwargs(parsed, keys, ini, supply[j])
+            if pid in wrongpin:
+                kw["rs"] = wrongpin[pid]
+            c.party(pid, "i" if ini else "r", name, rng="script:%d" % (seed + j), rec="-", **kw)
+        c.op("build", "A")
+        c.op("build", "B")
         c.op("obs", "A")
         c.op("obs", "B")
         faults = []
@@ -58,6 +71,10 @@ class CheckC17(core.Check):
                 else:
                     faults.append(c.op("hs_read", r, msg="$m%d%s" % (i, mut), buf=sessions.BIGBUF))
             c.op("hs_read", r, msg="$m%d" % i, buf=sessions.BIGBUF)
+            if rnd.random() < 0.3:
+                # calls refused by the early checks (oversize, out of turn) right after a successful read
+                faults.append(c.op("hs_read", r, msg="zero:65536", buf=sessions.BIGBUF))
+                faults.append(c.op("hs_read", r, msg="$m%d" % i, buf=sessions.BIGBUF))
         c.meta["faults"] = faults
         stateless = rnd.random() < 0.5
         sessions.add_convert(c, stateless=stateless)
@@ -70,13 +87,17 @@ class CheckC17(core.Check):
         c.op("obs", "B")
         kw_i = sessions.party_kwargs(parsed, keys, True, supply[0])
         kw_r = sessions.party_kwargs(parsed, keys, False, supply[1])
+        if "A" in wrongpin:
+            kw_i["rs"] = wrongpin["A"]
+        if "B" in wrongpin:
+            kw_r["rs"] = wrongpin["B"]
         c.info = {
             "name": name,
             "pat": parsed.pattern,
             "supplied": {"A": kw_i.get("rs"), "B": kw_r.get("rs")},
             "peerpub": {"A": keys.pub_r, "B": keys.pub_i},
             "recv_at": {"A": receives_static_at(parsed.pattern, True), "B": receives_static_at(parsed.pattern, False)},
-            "key": (name.split("_")[1], parsed.dh, supply, stateless),
+            "key": (name.split("_")[1], parsed.dh, supply, stateless, tuple(sorted(wrongpin))),
         }
         return c
 
